@@ -15,6 +15,7 @@ import HT.Model.Ipp
 import HT.Model.Proto
 import HT.Model.Iso
 import HT.Model.Release
+import HT.Model.Confine
 /-!
 Line-protocol driver: one case per input line, `<model> <args…>`; one output line
 per case.  Core Lean only (so it links as an executable).
@@ -44,6 +45,7 @@ def dispatch (line : String) : String :=
   | "seg" :: args => Proto.driver args
   | "iso" :: args => Iso.driver args
   | "rel" :: args => Rel.driver args
+  | "conf" :: args => Conf.driver args
   | _ => "bad-model"
 
 partial def loop (h : IO.FS.Stream) (out : IO.FS.Stream) : IO Unit := do
